@@ -77,7 +77,8 @@ def check_case(case, ctx):
     tol = 1e-6 if "translate" in tf else 1e-9
     if not base.close(c1["lp"], c2["lp"], tol):
         trailing = (c1["keys"] and c1["keys"][-1][-1] != 0) or (c2["keys"] and c2["keys"][-1][-1] != 0)
-        if ("reorder" in tf and trailing and case["config"].get("non_emitting_states") and
+        # (a relabelling changes the order of equally distant start candidates, which the map sorts by (distance, label))
+        if (("reorder" in tf or "relabel" in tf) and trailing and case["config"].get("non_emitting_states") and
                 ctx.known("KF-NE-ORDER", "after an early stop the best path ends in a run of non-emitting states whose content depends on "
                                          "the order in which neighbours are listed")):
             ctx.record(case, False, ["excluded:KF-NE-ORDER"])
